@@ -39,6 +39,32 @@ def main():
     if args:
         stable = {s for s in stable if s in seen}
     missing = sorted(stable - passed)
+    # flaky socket/timing tests under load: re-run the not-passed ones on their own (twice)
+    if missing and not args and len(missing) <= 40:
+        for _ in range(2):
+            still = []
+            for m in missing:
+                cls, name = m.split("::", 1)
+                parts = cls.split(".")
+                node = None
+                for i in range(len(parts), 0, -1):
+                    f = os.path.join(repo, *parts[:i]) + ".py"
+                    if os.path.exists(f):
+                        node = "/".join(parts[:i]) + ".py" + "".join("::" + x for x in parts[i:]) + "::" + name
+                        break
+                if node is None:
+                    still.append(m); continue
+                q = subprocess.run(["/venv/bin/python", "-m", "pytest", "-q", "-p", "no:cacheprovider",
+                                    "--timeout=900", node], cwd=repo, env=env,
+                                   stdout=subprocess.PIPE, stderr=subprocess.STDOUT, text=True)
+                if q.returncode != 0:
+                    still.append(m)
+                else:
+                    passed.add(m)
+            print(f"re-ran {len(missing)} not-passed tests individually: {len(still)} still failing")
+            missing = still
+            if not missing:
+                break
     print("pytest:", *tail)
     print(f"baseline stable_pass considered={len(stable)} passed={len(stable & passed)} not_passed={len(missing)}")
     for m in missing[:40]:
